@@ -198,11 +198,14 @@ def r5_handshake(ctx):
     C14.r4_handshake(ctx)
 
 
+from rules.first_sight import r_first_sight
+
 RULES = [
     ("C07.R1", "every RepliconServer::send call site is classified (replication / dependent event / independent event)", r1_send_sites, 6, ["default", "all-features", "server-only"]),
     ("C07.R2", "replication reaches only clients holding the crate-private authorized components", r2_replication, 10, ["default", "all-features", "server-only"]),
     ("C07.R3", "dependent events are sent only on the Some edge of the recipient's tick state", r3_dependent_events, 8, ["default", "all-features", "server-only"]),
     ("C07.R4", "only events marked independent bypass the authorization gate", r4_independent, 5, ["default", "all-features", "server-only"]),
     ("C07.R5", "handshake: authorized exactly on equal hashes; mismatch notifies and disconnects (same rule as C14.R4)", r5_handshake, 10, ["default", "all-features"]),
+    ("C07.R6", "first-sight completeness: a client that does not hold an entity yet (just authorized, just spawned, visibility gained) is sent every replicated component", r_first_sight, 14, ["default", "all-features", "server-only"]),
 ]
 THOROUGH_CONFIGS = ["default", "all-features", "server-only"]
